@@ -48,13 +48,15 @@ void as_value(eng::Ctx& ctx, const std::string& dir, const ref::TA& V, int n,
 	std::unique_ptr<Rel> cp;
 	{
 		eng::LibSection ls(ctx, "relation:copy:" + dir);
-		std::unique_ptr<Rel> orig(new Rel(sim));
+		std::unique_ptr<Rel> orig(new Rel);
+		*orig = sim;
 		if (how % 4 == 1) cp.reset(new Rel(*orig));
 		else if (how % 4 == 2) { cp.reset(new Rel); *cp = *orig; }
 		else { std::unique_ptr<Rel> mid(new Rel(*orig)); cp.reset(new Rel(*mid)); }
 		orig.reset();
 	}
 	ctx.count("relation_copies_compared");
+	eng::LibSection ls(ctx, "relation:copy:read:" + dir);
 	compare(ctx, dir + ":copy", V, n, *cp, want);
 }
 
